@@ -72,6 +72,11 @@ type Plan struct {
 	// ClientTimeout: the call goes through an *http.Client of the operation that carries a (long, 30 s) Timeout of its
 	// own; the request timeout and the caller's context still decide how long the call may take
 	ClientTimeout bool `json:"client_timeout,omitempty"`
+	// Method of the operation ("" = POST): uploads are sent under every method the caller declares. (r6)
+	Method string `json:"method,omitempty"`
+	// SrcAfter: what the failing source does when it is read again after it reported its error: "" the error again,
+	// "eof" a clean end, "resume" the rest of its bytes (an interrupted read that is retried). (r6)
+	SrcAfter string `json:"src_after,omitempty"`
 }
 
 // upload source -------------------------------------------------------------------------------------
@@ -89,6 +94,8 @@ func srcError(kind string) error {
 }
 
 type src struct {
+	after  string // see Plan.SrcAfter
+	failed bool
 	err    error
 	data   []byte
 	pos    int
@@ -100,7 +107,11 @@ type src struct {
 }
 
 func (s *src) Read(p []byte) (int, error) {
-	if s.failAt >= 0 && s.pos >= s.failAt {
+	if s.failAt >= 0 && s.pos >= s.failAt && !(s.failed && s.after == "resume") {
+		if s.failed && s.after == "eof" {
+			return 0, io.EOF
+		}
+		s.failed = true
 		if s.err != nil {
 			return 0, s.err
 		}
@@ -116,7 +127,7 @@ func (s *src) Read(p []byte) (int, error) {
 	if s.pos+n > len(s.data) {
 		n = len(s.data) - s.pos
 	}
-	if s.failAt >= 0 && s.pos+n > s.failAt {
+	if s.failAt >= 0 && s.pos+n > s.failAt && !s.failed {
 		n = s.failAt - s.pos
 	}
 	copy(p, s.data[s.pos:s.pos+n])
@@ -393,9 +404,29 @@ func Check(p Plan) *kit.Violation {
 	}
 
 	mk := func(i, failAt int) *src {
-		return &src{err: srcError(p.SrcErr), data: bytes.Repeat([]byte{byte('a' + i)}, p.FileLen), chunk: p.Chunk, failAt: failAt, name: fmt.Sprintf("dir/f%d.bin", i), ct: "application/x-scripted"}
+		return &src{after: p.SrcAfter, err: srcError(p.SrcErr), data: bytes.Repeat([]byte{byte('a' + i)}, p.FileLen), chunk: p.Chunk, failAt: failAt, name: fmt.Sprintf("dir/f%d.bin", i), ct: "application/x-scripted"}
 	}
 	op := &rt.ClientOperation{ID: "plan", Method: "POST", PathPattern: "/up"}
+	if p.Method != "" {
+		op.Method = p.Method
+	}
+	// the caller opens its upload files before it calls Submit and hands them over inside the operation's parameters
+	var prepared []*src
+	if p.Payload == "multipart" {
+		for i := 0; i < p.NFiles; i++ {
+			fa := -1
+			if i == p.FailIdx%maxInt(p.NFiles, 1) {
+				fa = p.SrcFailAt
+			}
+			prepared = append(prepared, mk(i, fa))
+		}
+		// judged for closing unless the plan holds a fault that comes before the hand-over: the parameter writer fails
+		// before it reaches SetFileParam, or there is no producer (checked before the writer runs; not among the endings
+		// the statement lists)
+		if p.ParamErr != "before" && !p.MissingProd {
+			files = prepared
+		}
+	}
 	if p.ClientTimeout {
 		op.Client = &http.Client{Transport: r.Transport, Timeout: 30 * time.Second}
 	}
@@ -437,15 +468,7 @@ func Check(p Plan) *kit.Violation {
 		case "multipart":
 			_ = req.SetFormParam("k", "v1")
 			var fs []rt.NamedReadCloser
-			for i := 0; i < p.NFiles; i++ {
-				fa := -1
-				if i == p.FailIdx%maxInt(p.NFiles, 1) {
-					fa = p.SrcFailAt
-				}
-				s := mk(i, fa)
-				mu.Lock()
-				files = append(files, s)
-				mu.Unlock()
+			for _, s := range prepared {
 				if p.Declared {
 					fs = append(fs, declaredSrc{s})
 				} else {
@@ -597,7 +620,7 @@ func Check(p Plan) *kit.Violation {
 	}
 	// (3) every file handed over is closed
 	if ok, name := allClosed(); !ok {
-		return kit.Failf("FILE-NOT-CLOSED: upload source %s was handed to SetFileParam and never closed (Submit err=%v)", name, out.err)
+		return kit.Failf("FILE-NOT-CLOSED: upload source %s was handed over in the operation's parameters and never closed (Submit err=%v)", name, out.err)
 	}
 	mu.Lock()
 	defer mu.Unlock()
@@ -713,6 +736,10 @@ func Gen(t *rapid.T) Plan {
 	if p.SrcFailAt >= 0 {
 		p.SrcErr = rapid.SampledFrom([]string{"", "", "unexpected-eof", "closed-pipe", "deadline"}).Draw(t, "srcerr")
 	}
+	if p.SrcFailAt >= 0 {
+		p.SrcAfter = rapid.SampledFrom([]string{"", "", "eof", "resume"}).Draw(t, "src-after-its-error")
+	}
+	p.Method = rapid.SampledFrom([]string{"", "", "", "PUT", "GET", "DELETE", "OPTIONS", "HEAD"}).Draw(t, "method")
 	p.Declared = rapid.Bool().Draw(t, "declared")
 	p.ParamErr = rapid.SampledFrom([]string{"", "", "", "", "before", "after"}).Draw(t, "paramerr")
 	p.Auth = rapid.SampledFrom([]string{"none", "ok", "err", "getbody", "getbody2"}).Draw(t, "auth")
@@ -883,6 +910,13 @@ func Classify(p Plan) (bool, []string) {
 	add(p.TimeoutMs > 0 && p.DefaultMs == p.TimeoutMs, "explicit timeout equal to the default")
 	add(p.deadlineMs() > 0 && p.CtxMs > p.deadlineMs(), "context deadline later than the request timeout")
 	add(p.MissingProd, "missing producer")
+	add(p.sourceFails() && p.SrcAfter != "", "failing source reports its error once, then "+p.SrcAfter)
+	add(p.sourceFails() && p.SrcAfter != "" && p.Auth == "getbody2", "source that fails once under an auth writer that asks for the body twice")
+	add(p.URLErr && p.Payload == "multipart" && p.NFiles > 0, "url error with files handed over")
+	if p.Method != "" {
+		labels = append(labels, "method "+p.Method)
+		add(p.streaming() && (p.Method == "GET" || p.Method == "HEAD" || p.Method == "OPTIONS"), "streamed payload under "+p.Method)
+	}
 	add(p.deadlineMs() > 0 && p.deadlineMs() < 100 && p.RespEnd == "stall", "deadline shorter than completion")
 	add(p.Reuse && (p.Reader == "partial" || p.Reader == "none" || p.Reader == "sizes" || p.Reader == "copyfail"), "reuse with unread body")
 	add(p.Reader == "copyfail", "reader copies the body to a failing destination")
@@ -904,7 +938,7 @@ func Classify(p Plan) (bool, []string) {
 	return nt, labels
 }
 
-const rule = "fault plans: payload kind x upload sources (length, chunking, failure at a byte offset, declared or sniffed type) x parameter-writer error before/after files were handed over x auth writer none/ok/error/GetBody x1,x2 " +
+const rule = "fault plans: payload kind x upload sources (length, chunking, failure at a byte offset, declared or sniffed type) (reporting its error again, or once and then EOF or the rest of the bytes) x operation method (POST PUT GET DELETE OPTIONS HEAD) x parameter-writer error before/after files were handed over x auth writer none/ok/error/GetBody x1,x2 " +
 	"x URL error x missing producer x transport behaviour (error before/after consuming the request body, responding without reading it) x response length and ending (EOF, data+EOF, error, stall until the request context ends) " +
 	"x reader behaviour (read all, partial, nothing, a sequence of read sizes incl. 0) x connection reuse x request timeout and caller context deadline (operation or runtime level) x caller cancellation before/while uploading/at a response offset; " +
 	"executed through Runtime.Submit over a scripted RoundTripper; oracle = accounting invariants: returned by the effective deadline, error whenever a fault was observable, every file closed, response body closed and (with reuse) read to its end before Close, no goroutine with a client frame left; " +
